@@ -182,7 +182,7 @@ theorem fortran_names_distinct (sc : Scope) (fs : List Fn) (ok : CoreOK (fun w =
 /-! ### a non-trivial instance of the hypotheses, and the known ways to leave the domain -/
 
 def exScope : Scope :=
-  { cPrefix := "NM_".toList, cScope := "outer_".toList, fScope := [], derived := [],
+  { cPrefix := "NM_".toList, cScope := "outer_".toList, fScope := [], derived := [], isClass := false,
     w0 := ⟨true, true, false, false⟩ }
 
 def exFn (name : String) (np nd : Nat) (sfx : Option String) : Fn :=
@@ -225,14 +225,20 @@ theorem distinct_underscore_forms_insufficient :
           (fun r => r.wrap.c)).map (cName exScope)).Nodup := by
   constructor <;> decide +kernel
 
-/-- The full pipeline adds no C-visible record and changes no C name when no declaration
-    needs a bufferify variant; so the C names of `expand` are distinct there as well.
-    Missing for the full statement: the `_bufferify` clones (C) and the
-    `function_suffix ++ generic_suffix` names of `fortran_generic` clones (Fortran), whose
-    distinctness needs a no-collision hypothesis on suffix concatenations. -/
-theorem expand_c_names_distinct_partial (sc : Scope) (fs : List Fn)
-    (ok : CoreOK (fun w => w.c) (stage1 sc fs)) (nobuf : ∀ r ∈ core sc fs, r.hasBuf = false) :
-    (((expand sc fs).filter (fun r => r.wrap.c)).map (cName sc)).Nodup := by
+/-! ### the whole pipeline: `_bufferify` clones and `fortran_generic` clones -/
+
+/-- Suffix extensions of the C entry points of a record: itself and, when a bufferify variant
+    is made, `_bufferify`. -/
+def cExt (r : Rec) : List Str := [] :: (if r.wrap.f && r.hasBuf then [bufSuffix] else [])
+
+/-- Suffix extensions of the Fortran specifics of a record: itself, or one per
+    `fortran_generic` entry. -/
+def fExt (r : Rec) : List Str := if r.generics.isEmpty then [[]] else r.generics
+
+theorem expand_c_names_eq (sc : Scope) (fs : List Fn) :
+    ((expand sc fs).filter (fun r => r.wrap.c)).map (cName sc)
+      = ((core sc fs).filter (fun r => r.wrap.c)).flatMap
+          (fun r => (cExt r).map (nameExt (sc.cPrefix ++ sc.cScope) r)) := by
   have one : ∀ r : Rec, ((genericRec r).filter (fun x => x.wrap.c)).map (cName sc)
       = ([r].filter (fun x => x.wrap.c)).map (cName sc) := by
     intro r
@@ -241,24 +247,129 @@ theorem expand_c_names_distinct_partial (sc : Scope) (fs : List Fn)
     · by_cases hc : r.wrap.c = true <;>
         simp [hc, List.filter_cons, List.filter_map, Function.comp_def, c_name_predictable]
     · rfl
-  have key : ∀ l : List Rec, (∀ r ∈ l, r.hasBuf = false) →
-      (((l.flatMap bufferifyRec).flatMap genericRec).filter (fun r => r.wrap.c)).map (cName sc)
-        = (l.filter (fun r => r.wrap.c)).map (cName sc) := by
-    intro l
-    induction l with
-    | nil => intro _; rfl
-    | cons r l ih =>
-      intro h
-      have hr : r.hasBuf = false := h r (by simp)
-      have e1 : bufferifyRec r = [r] := by simp [bufferifyRec, hr]
-      have e2 : r :: l = [r] ++ l := rfl
-      rw [List.flatMap_cons, e1, List.flatMap_append, List.filter_append, List.map_append,
-        ih (fun x hx => h x (by simp [hx])), e2, List.filter_append, List.map_append]
-      congr 1
-      simpa using one r
+  have cA : ∀ X : List Rec, ((X.flatMap genericRec).filter (fun r => r.wrap.c)).map (cName sc)
+      = (X.filter (fun r => r.wrap.c)).map (cName sc) := by
+    intro X
+    induction X with
+    | nil => rfl
+    | cons r X ih =>
+      have e2 : r :: X = [r] ++ X := rfl
+      rw [List.flatMap_cons, List.filter_append, List.map_append, ih, one r, e2, List.filter_append,
+        List.map_append]
+  have cB : ∀ r : Rec, ((bufferifyRec r).filter (fun x => x.wrap.c)).map (cName sc)
+      = ([r].filter (fun x => x.wrap.c)).flatMap
+          (fun r => (cExt r).map (nameExt (sc.cPrefix ++ sc.cScope) r)) := by
+    intro r
+    by_cases hc : r.wrap.c = true <;> by_cases hf : r.wrap.f = true <;> by_cases hb : r.hasBuf = true <;>
+      simp [bufferifyRec, cExt, nameExt, c_name_predictable, hc, hf, hb, List.filter_cons]
   unfold expand
-  rw [key _ nobuf]
-  exact c_names_distinct sc fs ok
+  rw [cA]
+  generalize core sc fs = N
+  induction N with
+  | nil => rfl
+  | cons r N ih =>
+    have e2 : r :: N = [r] ++ N := rfl
+    rw [List.flatMap_cons, List.filter_append, List.map_append, ih, cB r, e2, List.filter_append,
+      List.flatMap_append]
+
+theorem expand_f_names_eq (sc : Scope) (fs : List Fn) :
+    ((expand sc fs).filter (fun r => r.wrap.f)).map (fImpl sc)
+      = ((core sc fs).filter (fun r => r.wrap.f)).flatMap
+          (fun r => (fExt r).map (nameExt sc.fScope r)) := by
+  have fG : ∀ r : Rec, ((genericRec r).filter (fun x => x.wrap.f)).map (fImpl sc)
+      = ([r].filter (fun x => x.wrap.f)).flatMap (fun r => (fExt r).map (nameExt sc.fScope r)) := by
+    intro r
+    unfold genericRec fExt
+    by_cases hf : r.wrap.f = true
+    · by_cases hg : r.generics.isEmpty = true
+      · simp [hf, hg, List.filter_cons, nameExt, (f_names_predictable sc r).1]
+      · simp [hf, hg, List.filter_cons, List.filter_map, Function.comp_def, nameExt,
+          f_names_predictable]
+    · simp [hf, List.filter_cons]
+  have fB : ∀ r : Rec, (((bufferifyRec r).flatMap genericRec).filter (fun x => x.wrap.f)).map (fImpl sc)
+      = ([r].filter (fun x => x.wrap.f)).flatMap (fun r => (fExt r).map (nameExt sc.fScope r)) := by
+    intro r
+    unfold bufferifyRec
+    split
+    · rw [List.flatMap_cons, List.flatMap_cons, List.flatMap_nil, List.append_nil, List.filter_append,
+        List.map_append, fG r]
+      simp [genericRec, List.filter_cons]
+    · simpa using fG r
+  unfold expand
+  generalize core sc fs = N
+  induction N with
+  | nil => rfl
+  | cons r N ih =>
+    have e2 : r :: N = [r] ++ N := rfl
+    rw [List.flatMap_cons, List.flatMap_append, List.filter_append, List.map_append, ih, fB r, e2,
+      List.filter_append, List.flatMap_append]
+
+theorem cExt_renumber (s i : Nat) (r : Rec) : cExt (renumber s i r) = cExt r := by
+  simp [cExt]
+theorem fExt_renumber (s i : Nat) (r : Rec) : fExt (renumber s i r) = fExt r := by
+  simp [fExt]
+
+/-- **(b) C symbols, whole pipeline.**  All C names a scope emits (default-argument
+    variants, template instantiations, numbered overloads and their `_bufferify` clones) are
+    pairwise distinct, provided additionally that explicit suffixes are single `_token`s and
+    templated functions have no bufferify variant. -/
+theorem expand_c_names_distinct (sc : Scope) (fs : List Fn)
+    (ok : CoreOK (fun w => w.c) (stage1 sc fs))
+    (tok : ∀ r ∈ stage1 sc fs, eligible r = true → r.sfxLocal = true → isTok r.sfx = true)
+    (tb : ∀ r ∈ stage1 sc fs, eligible r = false → r.hasBuf = false) :
+    (((expand sc fs).filter (fun r => r.wrap.c)).map (cName sc)).Nodup := by
+  rw [expand_c_names_eq]
+  refine number_ext_names_nodup (vis := fun w => w.c) cExt_renumber _ _ ok ⟨?_, ?_, ?_, tok⟩
+  · intro r _ e he
+    unfold cExt at he
+    split at he
+    · simp at he; rcases he with rfl | rfl
+      · rfl
+      · exact bufSuffix_extLike
+    · simp at he; subst he; rfl
+  · intro r _
+    unfold cExt
+    split
+    · simp [bufSuffix]
+    · simp
+  · intro r hr ht e he
+    simpa [cExt, tb r hr ht] using he
+
+/-- **(b) Fortran module entities, whole pipeline.**  All Fortran specific names a scope
+    emits, including the `function_suffix ++ generic_suffix` names of `fortran_generic`
+    clones, are pairwise distinct, provided additionally that explicit suffixes are single
+    `_token`s, generic suffixes are pairwise distinct and empty or `_`-initial, and templated
+    functions have no `fortran_generic` list. -/
+theorem expand_fortran_names_distinct (sc : Scope) (fs : List Fn)
+    (ok : CoreOK (fun w => w.f) (stage1 sc fs))
+    (tok : ∀ r ∈ stage1 sc fs, eligible r = true → r.sfxLocal = true → isTok r.sfx = true)
+    (gl : ∀ r ∈ stage1 sc fs, ∀ g ∈ r.generics, extLike g = true)
+    (gn : ∀ r ∈ stage1 sc fs, r.generics.Nodup)
+    (tg : ∀ r ∈ stage1 sc fs, eligible r = false → r.generics = []) :
+    (((expand sc fs).filter (fun r => r.wrap.f)).map (fImpl sc)).Nodup := by
+  rw [expand_f_names_eq]
+  refine number_ext_names_nodup (vis := fun w => w.f) fExt_renumber _ _ ok ⟨?_, ?_, ?_, tok⟩
+  · intro r hr e he
+    unfold fExt at he
+    split at he
+    · simp at he; subst he; rfl
+    · exact gl r hr e he
+  · intro r hr
+    unfold fExt
+    split
+    · simp
+    · exact gn r hr
+  · intro r hr ht e he
+    simpa [fExt, tg r hr ht] using he
+
+example : (((expand exScope (exFns ++ [{ exFn "str" 2 1 none with hasBuf := true },
+      { exFn "gen" 1 0 none with generics := [none, some "_dbl".toList] }])).filter
+        (fun r => r.wrap.c)).map (cName exScope))
+    = ["NM_outer_foo_bar_0", "NM_outer_foo_bar_1", "NM_outer_foo_bar_2", "NM_outer_foo_bar_dbl",
+       "NM_outer_tmpl_int", "NM_outer_tmpl_double", "NM_outer_get",
+       "NM_outer_str_0", "NM_outer_str_0_bufferify", "NM_outer_str_1", "NM_outer_str_1_bufferify",
+       "NM_outer_gen"].map String.toList := by
+  decide +kernel
 
 /-- **(c) generic interfaces.**  The `f_function_generic` table built while wrapping lists,
     under every key, exactly the Fortran implementation names of the wrapped records filed
